@@ -60,13 +60,16 @@ theorem eof_after_all_data (s : St) (n : Nat) (h1 : s.rAlive = false) (h2 : s.rx
 
 open Penguin.Mux in
 /-- Half-close at the endpoint: shutting down the write direction of a stream touches only the
-    `finishSent` flag of that stream object and queues one `Finish`; its receive queue, buffer and
-    the slot (hence the opposite direction) are unchanged. -/
+    `finishSent` flag of that stream object (and the harness's note that a write call is pending) and
+    queues one `Finish`, once; its receive queue, buffer and the slot (hence the opposite direction)
+    are unchanged. -/
 theorem half_close (e : EP) (h i : Nat) (o : Obj)
     (hh : e.handles[h]? = some i) (ho : e.objs[i]? = some o) (hoc : e.outClosed = false) :
-    (o.finishSent = true → appShutdown e h = (e, .unit)) ∧
+    (o.finishSent = true →
+        (appShutdown e h).2 = .unit ∧ (appShutdown e h).1.objs[i]? = some { o with parked := false } ∧
+        (appShutdown e h).1.outq = e.outq) ∧
     (o.finishSent = false →
-        (appShutdown e h).1.objs[i]? = some { o with finishSent := true } ∧
+        (appShutdown e h).1.objs[i]? = some { o with finishSent := true, parked := false } ∧
         (appShutdown e h).1.outq = e.outq ++ [.frame (.finish o.fid)]) :=
   Mux.appShutdown_glue e h i o hh ho hoc
 
